@@ -30,6 +30,10 @@ pub struct Plan {
     pub s_deflate: bool,
     pub c_io: IoPlan,
     pub s_io: IoPlan,
+    /// Some: the same pair is also offered as two `LazyJar`s (entry-level seam), with these faults on the client /
+    /// server side
+    #[serde(default)]
+    pub lazy: Option<(crate::simjar::LazyPlan, crate::simjar::LazyPlan)>,
 }
 
 /// One logical entry name, with what each side holds under it.
@@ -416,9 +420,13 @@ fn run_merge(c_bytes: &[u8], c_io: &IoPlan, s_bytes: &[u8], s_io: &IoPlan, with_
     let cj = SimJar::new(c_bytes.to_vec(), c_io);
     let sj = SimJar::new(s_bytes.to_vec(), s_io);
     let h = JarHandles { c: cj.agg.clone(), s: sj.agg.clone() };
+    (merge_and_observe(cj, sj, with_mem), h)
+}
+
+fn merge_and_observe(cj: impl dukebox::storage::Jar, sj: impl dukebox::storage::Jar, with_mem: bool) -> Outcome {
     let merged = match no_panic(move || dukebox::merge::merge(cj, sj)) {
-        Err(pm) => return (Outcome::Panic(pm, "merge"), h),
-        Ok(Err(e)) => return (Outcome::Err(format!("{e:#}"), "merge"), h),
+        Err(pm) => return Outcome::Panic(pm, "merge"),
+        Ok(Err(e)) => return Outcome::Err(format!("{e:#}"), "merge"),
         Ok(Ok(pj)) => pj,
     };
     let observed = no_panic(|| -> anyhow::Result<Vec<(String, Obs)>> {
@@ -437,8 +445,8 @@ fn run_merge(c_bytes: &[u8], c_io: &IoPlan, s_bytes: &[u8], s_io: &IoPlan, with_
         Ok(out)
     });
     let obs = match observed {
-        Err(pm) => return (Outcome::Panic(pm, "write-class"), h),
-        Ok(Err(e)) => return (Outcome::Err(format!("{e:#}"), "write-class"), h),
+        Err(pm) => return Outcome::Panic(pm, "write-class"),
+        Ok(Err(e)) => return Outcome::Err(format!("{e:#}"), "write-class"),
         Ok(Ok(o)) => o,
     };
     let mem = if with_mem {
@@ -450,7 +458,7 @@ fn run_merge(c_bytes: &[u8], c_io: &IoPlan, s_bytes: &[u8], s_io: &IoPlan, with_
     } else {
         None
     };
-    (Outcome::Ok(obs, mem), h)
+    Outcome::Ok(obs, mem)
 }
 
 /// Stable family of an error text: digits -> N, quoted / parenthesised payloads dropped.
@@ -944,7 +952,7 @@ impl Engine for C13 {
             fresh
         });
 
-        let mut p = Plan { items, c_deflate: w.chance(60), s_deflate: w.chance(60), c_io: IoPlan::plain(), s_io: IoPlan::plain() };
+        let mut p = Plan { items, c_deflate: w.chance(60), s_deflate: w.chance(60), c_io: IoPlan::plain(), s_io: IoPlan::plain(), lazy: None };
 
         // ---- schedule and faults: 20 % plain, 30 % legal behaviours only, 50 % faults
         let mode = s.below(10);
@@ -980,6 +988,20 @@ impl Engine for C13 {
             if both && nf == 1 {
                 p.s_io.faults.push(gen_fault(&mut f, &ls));
             }
+        }
+        // ---- the entry-level seam
+        let mut z = rng.split("lazy-jar");
+        if z.chance(20) {
+            let span = 5 * p.items.len() as u64 + 6;
+            let mut side = |z: &mut Rng| {
+                let mut fail_at: Vec<u32> = (0..z.below(3)).map(|_| z.below(span) as u32).collect();
+                fail_at.sort();
+                fail_at.dedup();
+                crate::simjar::LazyPlan { fail_at, sticky: z.chance(30), io: if z.chance(40) { IoPlan::gen_legal(z) } else { IoPlan::plain() } }
+            };
+            let c = side(&mut z);
+            let sv = side(&mut z);
+            p.lazy = Some((c, sv));
         }
         p
     }
@@ -1185,12 +1207,60 @@ impl Engine for C13 {
                 }
             }
         }
+        // ---------------- the entry-level seam: the same pair behind two LazyJars
+        if let Some((lc, ls)) = &p.lazy {
+            use crate::simjar::{LazyJar, SharedLazy};
+            let cj = Arc::new(LazyJar::new(b.client.clone(), lc));
+            let sj = Arc::new(LazyJar::new(b.server.clone(), ls));
+            let r = merge_and_observe(SharedLazy(cj.clone()), SharedLazy(sj.clone()), false);
+            cj.report(st);
+            sj.report(st);
+            let failed = cj.failed() + sj.failed() > 0;
+            let tier = if failed { "T2" } else { "T1" };
+            st.tier(tier);
+            obs.u64(0x1a2);
+            match r {
+                Outcome::Panic(pm, stage) => out.push(Violation::new(tier, "panic", panic_id(stage, &pm), pm)),
+                Outcome::Err(e, stage) => {
+                    obs.u64(0xE44);
+                    if failed {
+                        st.probe("lazy.err_after_failed_entry_operation");
+                    } else {
+                        out.push(Violation::new("T1", "schedule-dependence", format!("lazy.{stage}.result"), format!("fails on jars that hand out their entries one by one although no entry operation failed: {e}")));
+                    }
+                }
+                Outcome::Ok(o, _) => {
+                    obs_digest(&mut obs, &o);
+                    if failed {
+                        st.probe("lazy.ok_after_failed_entry_operation");
+                    }
+                    // the data is intact whatever failed in between: an answer must be THE answer
+                    if let Err((path, d)) = same_observation(&obs0, &o) {
+                        let class = if failed { "reader-ok-with-wrong-data" } else { "schedule-dependence" };
+                        out.push(Violation::new(tier, class, format!("lazy.{path}"), d));
+                    }
+                }
+            }
+        }
         st.obs = obs;
         out
     }
 
     fn shrink(&self, p: &Plan) -> Vec<Plan> {
         let mut c: Vec<Plan> = vec![];
+        if let Some((lc, ls)) = &p.lazy {
+            c.push(Plan { lazy: None, ..p.clone() });
+            for i in 0..lc.fail_at.len() {
+                let mut l = lc.clone();
+                l.fail_at.remove(i);
+                c.push(Plan { lazy: Some((l, ls.clone())), ..p.clone() });
+            }
+            for i in 0..ls.fail_at.len() {
+                let mut l = ls.clone();
+                l.fail_at.remove(i);
+                c.push(Plan { lazy: Some((lc.clone(), l)), ..p.clone() });
+            }
+        }
         // ---- faults and schedule
         for io in shrink_io(&p.c_io) {
             c.push(Plan { c_io: io, ..p.clone() });
@@ -1342,7 +1412,7 @@ impl Engine for C13 {
                 }
             }
         }
-        (ops, (p.c_io.faults.len() + p.s_io.faults.len()) as u64)
+        (ops + p.lazy.is_some() as u64, (p.c_io.faults.len() + p.s_io.faults.len() + p.lazy.as_ref().map_or(0, |(a, b)| a.fail_at.len() + b.fail_at.len())) as u64)
     }
 
     fn rule(&self) -> String {
@@ -1397,6 +1467,7 @@ impl Engine for C13 {
             "io.eintr",
             "io.short_transfers",
             "to_mem_reopened",
+            "lazy.err_after_failed_entry_operation",
         ]
     }
 }
